@@ -25,24 +25,36 @@ def build(case):
     buf[...] = dtype(77.0)
     a.method = lc.by_name(case["method"])
     b = driver.Budget(20000)
+
+    def peek():
+        # 'peek': the caller looks the trajectory up (scalar, array, slice, index) BETWEEN the calls of the history too - an observation builds whatever
+        # caches the lookups keep, and a later call must not be answered from them
+        if not case.get("peek"):
+            return
+        for q in (lambda: a[a.t[-1]], lambda: a[np.asarray([a.t[0], a.t[-1], a.t[len(a) // 2]], dtype=dtype)], lambda: a[a.t[0]:a.t[-1]], lambda: a[-1],
+                  lambda: a[dtype(0.5) * (a.t[0] + a.t[-1])]):
+            try:
+                q()
+            except Exception:
+                pass
     if case["hist"] == "none":
         pass
     elif case["hist"] == "one":
         a.integrate(dtype(tf), callback=b)
     elif case["hist"] == "continued":
-        a.integrate(dtype(t0 + 0.5 * (tf - t0)), callback=b)
+        a.integrate(dtype(t0 + 0.5 * (tf - t0)), callback=b); peek()
         a.integrate(dtype(tf), callback=b)
     elif case["hist"] == "extended":
-        a.integrate(dtype(tf), callback=b)
+        a.integrate(dtype(tf), callback=b); peek()
         a.integrate(dtype(tf + 0.75 * (tf - t0)), callback=b)       # the record extends beyond the configured (t0, tf)
     elif case["hist"] == "partial":
         a.integrate(dtype(t0 + 0.375 * (tf - t0)), callback=b)
     elif case["hist"] == "reset":
-        a.integrate(dtype(tf), callback=b)
+        a.integrate(dtype(tf), callback=b); peek()
         a.reset()                                                    # one recorded sample again; the storage of the old run may still be around
     elif case["hist"] == "reset-partial":
-        a.integrate(dtype(tf), callback=b)
-        a.reset()
+        a.integrate(dtype(tf), callback=b); peek()
+        a.reset(); peek()
         a.integrate(dtype(t0 + 0.375 * (tf - t0)), callback=b)       # a shorter record than the one before the reset
     elif case["hist"] == "failed":
         st = dict(n=0)
@@ -204,13 +216,13 @@ def check_case(case):
             except Exception as e:
                 r.v("C19/slice-interior/%s" % name, "a time slice returns the contiguous stretch of the run between its bounds", dict(cs, slice=[float(qa), float(qb)]), observed=repr(e)[:200], expected="rows")
                 break
-    r.out((case["method"], case["dense"], d, case["hist"], min(n, 12)))
+    r.out((case["method"], case["dense"], d, case["hist"], min(n, 12), bool(case.get("peek"))))
     r.samples.append(dict(case=case, rows=n, queries=len(qs) + len(outside)))
     return r
 
 
 def run(ctx):
-    ctx.rule = ("every recorded grid of the declared family (uniform / adaptive x forward / backward / through zero / negative times x one call / continued / extended beyond the configured span / partial / never run x {run along the configured span, run direction chosen by integrate(t) against the configured span} "
+    ctx.rule = ("every recorded grid of the declared family (uniform / adaptive x forward / backward / through zero / negative times x one call / continued / extended beyond the configured span / partial / never run / reset, each multi-call history also with lookups (scalar, array, slice, index) made between its calls x {run along the configured span, run direction chosen by integrate(t) against the configured span} "
                 "x dense on/off x dtypes) x ALL integer indices in [-len-2, len+2] x query times {every recorded time and its two floating-point neighbours, every midpoint exactly "
                 "(tie) and +-2^j ulp for j in {0,1,2,10,20,30}, quarter points, outside both ends} x whole-run slices; reference = python list semantics with linear nearest search; "
                 "distinct = distinct (method, dense, direction, history, #rows) classes")
@@ -226,6 +238,10 @@ def run(ctx):
                         cases.append(dict(method=m, span=list(sp), dt0=dt0, dense=dense, hist=hist, dtype=dn))
                         if hist != "none":
                             cases.append(dict(method=m, span=list(sp), dt0=dt0, dense=dense, hist=hist, dtype=dn, against=True))
+                        if hist in ("continued", "extended", "reset", "reset-partial"):
+                            cases.append(dict(method=m, span=list(sp), dt0=dt0, dense=dense, hist=hist, dtype=dn, peek=True))
+                            if dense:
+                                cases.append(dict(method=m, span=list(sp), dt0=dt0, dense=dense, hist=hist, dtype=dn, against=True, peek=True))
     # beside the convenient values: a step that is not a dyadic fraction and spans far from the origin of the time axis
     for m in ("RK4Solver", "RK45CKSolver"):
         for sp in ((0.0, 2.0), (1.0, -1.0), (1000.0, 1002.0), (-1000.0, -1002.0), (1002.0, 1000.0)):
